@@ -5,6 +5,7 @@ package props
 import (
 	"context"
 	"fmt"
+	"strings"
 	"time"
 
 	"github.com/tdakkota/docker-logql/internal/lokiapi"
@@ -409,6 +410,109 @@ func runC18(r *vk.Run) {
 		c.Nontrivial(fmt.Sprintf("odd|%d", c.Idx))
 	})
 	r.Require("oddline_runs_compared", 60)
+
+	// one Engine over one Querier answering a session of queries (selective ones first, then everything, then
+	// the selective ones again, multi-selector metric queries in between): each answer equals the answer a
+	// fresh Engine gives to that query alone -- what was asked before is not part of the question
+	r.Phase("sameengine", r.N(8, 80), func(c *vk.Case) {
+		rng := c.Rng
+		n := rng.Range(3, 5)
+		inv := c14Inventory(rng, n, 4)
+		last := strings.TrimPrefix(inv[n-1].Name, "/")
+		mid := strings.TrimPrefix(inv[n/2].Name, "/")
+		session := []string{
+			fmt.Sprintf(`{container=%q}`, last),
+			fmt.Sprintf(`{container=~"%s|%s"}`, mid, last),
+			`{container=~".+"}`,
+			fmt.Sprintf(`{container=%q}`, last),
+			fmt.Sprintf(`sum(count_over_time({container=~"%s|%s"}[10s])) / sum(count_over_time({container=~".+"}[10s]))`, mid, last),
+			`sum by (container) (count_over_time({container=~".+"}[10s]))`,
+			fmt.Sprintf(`{container!=%q} | drop msg`, last),
+			`{container=~".+"}`,
+		}
+		p := EvalP{Start: c14T0, End: c14T0 + 10e9, Step: 5 * time.Second, Limit: -1}
+		eng := newEngine(dockerQuerier(newFakeDocker(inv)))
+		for round := 0; round < 2; round++ {
+			for i, q := range session {
+				data, err := eng.Eval(context.Background(), q, p.params())
+				fresh, ferr := evalRaw(newFakeDocker(inv), q, p)
+				c.Eval(2)
+				if (err == nil) != (ferr == nil) {
+					c.Fail("", fmt.Sprintf("query %d of the session (%s, round %d): error %v on the shared Engine, %v on a fresh one", i+1, q, round+1, err, ferr), map[string]any{"inventory": inv, "session": session})
+					return
+				}
+				if err != nil {
+					continue
+				}
+				a, _ := convertResult(data)
+				b, _ := convertResult(fresh)
+				if a.Canonical() != b.Canonical() {
+					c.Fail("", fmt.Sprintf("query %d of a session on one Engine (%s, round %d) answers differently than on a fresh Engine", i+1, q, round+1), map[string]any{"inventory": inv, "session": session, "shared_engine": a.Canonical(), "fresh_engine": b.Canonical()})
+					return
+				}
+				c.Count("session_answers_compared", 1)
+			}
+		}
+		c.Nontrivial(fmt.Sprintf("session|%d", c.Idx))
+	})
+	r.Require("session_answers_compared", 100)
+
+	// how the daemon connection happens to hand the bytes over (whole bodies, single bytes, random pieces,
+	// empty reads in between, the end reported together with the last bytes) is scheduling, not data: the
+	// same logs give the same answer however their transfer is cut up
+	r.Phase("segmentation", r.N(6, 60), func(c *vk.Case) {
+		rng := c.Rng
+		n := rng.Range(1, 4)
+		inv := c14Inventory(rng, n, 5)
+		for i := range inv {
+			if len(inv[i].Frames) > 0 && rng.Bool() {
+				inv[i].Frames[0].Body += strings.Repeat(" long line", rng.Range(50, 900)) // frames larger than a transport buffer
+			}
+		}
+		for _, q := range []string{`{container=~".+"}`, `sum by (container) (count_over_time({container=~".+"}[10s]))`} {
+			first := ""
+			for rep := 0; rep < c.R.N(8, 24); rep++ {
+				fd := newFakeDocker(inv)
+				plan := "whole"
+				if rep > 0 {
+					for _, fc := range fd.Containers {
+						fc.Plan.FailAt = -1
+						switch (rep + len(fc.C.ID) + int(fc.C.ID[len(fc.C.ID)-1])) % 5 {
+						case 0:
+							fc.Plan.Chunk, plan = 1, "bytes"
+						case 1:
+							fc.Plan.Chunk, fc.Plan.Seed, plan = -1, uint64(rep)*7919+uint64(c.Idx), "random"
+						case 2:
+							fc.Plan.Chunk, fc.Plan.ZeroReads, plan = 4096, true, "4k+empty"
+						case 3:
+							fc.Plan.Chunk, fc.Plan.EOFWithData, plan = 13, true, "13+eof-with-data"
+						default:
+							fc.Plan.Chunk, plan = 8+rep, "small"
+						}
+					}
+				}
+				data, err := evalRaw(fd, q, EvalP{Start: c14T0, End: c14T0 + 10e9, Step: 5 * time.Second, Limit: -1})
+				c.Eval(1)
+				outcome := ""
+				if err != nil {
+					outcome = "error: " + err.Error()
+				} else {
+					res, _ := convertResult(data)
+					outcome = res.Canonical()
+				}
+				if first == "" {
+					first = outcome + "\x00"
+				} else if first != outcome+"\x00" {
+					c.Fail("", fmt.Sprintf("query %s: the same logs transferred in other pieces (%s) give a different outcome", q, plan), map[string]any{"query": q, "inventory": inv, "this_run": trunc(outcome, 1500), "first_run": trunc(first, 1500)})
+					return
+				}
+				c.Count("segmentations_compared", 1)
+				c.Seen("segmentation_plans", plan)
+			}
+		}
+		c.Nontrivial(fmt.Sprintf("seg|%d", c.Idx))
+	})
+	r.Require("segmentations_compared", 60)
 
 	r.Phase("stress", r.N(6, 60), func(c *vk.Case) {
 		inv := c14Inventory(c.Rng, 64, 3)
